@@ -290,6 +290,12 @@ Proof.
     eapply inv_after_walk with (lbls := labels s) (pr := pending_rel s);
       [intros ? ? X; exact X|exact I| |lia].
     apply walk_inv; [apply resolve_sel_sound|apply (inv_nodup _ _ _ _ _ I)|apply (inv_fx _ _ _ _ _ I)].
+  - (* ODeltaChecked *)
+    destruct (nth_error (labels s) l) as [ll|]; [|exact I].
+    destruct (nth_error (labels s) b) as [lb|]; [|exact I].
+    destruct (size_ok size); simpl; [|exact I].
+    destruct (match ll with Some (ls, lo) => _ | None => None end); simpl; [|exact I].
+    destruct (_ || _); exact I.
 Qed.
 
 Lemma inv_init : inv init.
